@@ -89,7 +89,7 @@ func (d DID) PubKey() (crypto.PubKey, error) {
 		P256:      ecdsaPubKeyUnmarshaler(elliptic.P256()),
 		P384:      ecdsaPubKeyUnmarshaler(elliptic.P384()),
 		P521:      ecdsaPubKeyUnmarshaler(elliptic.P521()),
-		Secp256k1: crypto.UnmarshalSecp256k1PublicKey,
+		Secp256k1: secp256k1PubKeyUnmarshaller,
 		RSA:       rsaPubKeyUnmarshaller,
 	}[d.code]
 	if !ok {
@@ -126,6 +126,16 @@ func ecdsaPubKeyUnmarshaler(curve elliptic.Curve) crypto.PubKeyUnmarshaller {
 
 		return crypto.UnmarshalECDSAPublicKey(pkix)
 	}
+}
+
+func secp256k1PubKeyUnmarshaller(data []byte) (crypto.PubKey, error) {
+	// did:key only uses the 33-byte compressed form: the uncompressed and hybrid
+	// forms of the same point would give several DIDs to the same principal.
+	if len(data) != 33 {
+		return nil, fmt.Errorf("invalid compressed secp256k1 public key")
+	}
+
+	return crypto.UnmarshalSecp256k1PublicKey(data)
 }
 
 func rsaPubKeyUnmarshaller(data []byte) (crypto.PubKey, error) {
